@@ -1002,6 +1002,26 @@ fn finish_report(mut r: Report, out: detsim::Outcome, run: Option<QueueRun>, pla
                     _ => {}
                 }
             }
+            if js(plan, "end", "") == "drop_in_panic" {
+                r.fault("drop_during_unwind", 1);
+            }
+            if run.hist.iter().any(|e| matches!(&e.k, K::Note(n) if n == "writer_thread_subscriber_installed")) {
+                r.fault("writer_thread_subscriber", 1);
+                r.probe("subscriber_appears_after_build", 1);
+            }
+            if plan.get("flush_fail_from").map(|x| x.is_u64()).unwrap_or(false) && f_err > 0 {
+                r.fault("stream_flush_persistently_failing", 1);
+            }
+            if plan.get("fail_all").map(|x| x.is_string()).unwrap_or(false) {
+                r.fault("stream_rejects_every_entry", 1);
+            }
+            let bare = count_bare_appends(plan);
+            if bare > 0 && js(plan, "recorder_kind", "") == "global_tl" {
+                r.fault("append_before_recorder_exists", bare);
+            }
+            if js(plan, "recorder_kind", "") == "global_tl" && jb(plan, "recorder", false) {
+                r.probe("global_recorder_bridge", 1);
+            }
             r.fault("stream_validation_err", v_err);
             r.fault("stream_io_err", i_err);
             r.fault("stream_flush_err", f_err);
